@@ -792,6 +792,11 @@ def run_case(case):
     return run_realkill(case)
 
 
+def runner_guarded(pid, fn, case):
+    from ..runner import guarded
+    return guarded(pid, fn, case)
+
+
 def run_seed(seed, tier):
     """Baseline without fault, then the same workload with the kill at
     enumerated (thorough) or sampled (quick) seam events of the victim."""
@@ -805,7 +810,7 @@ def run_seed(seed, tier):
         before = run_evict(empty).get('present')
         after = run_evict(copy.deepcopy(case)).get('present')
         case['expect_present'] = [before, after]
-    base = run_case(copy.deepcopy(case))
+    base = runner_guarded(PROPERTY, run_case, copy.deepcopy(case))
     base['case'] = case
     base['first_of_seed'] = True
     results.append(base)
@@ -821,7 +826,7 @@ def run_seed(seed, tier):
         for k in sorted(points):
             c = copy.deepcopy(case)
             c['kill_at'] = k
-            r = run_case(copy.deepcopy(c))
+            r = runner_guarded(PROPERTY, run_case, copy.deepcopy(c))
             r['case'] = c
             r['first_of_seed'] = False
             results.append(r)
@@ -840,7 +845,7 @@ def run_seed(seed, tier):
     for j, k in sorted(points):
         c = copy.deepcopy(case)
         c['faults'] = [{'f': 'kill', 'task': 'v', 'op': j, 'k': k, 'torn': rng.choice((0.0, 0.01, 0.5, 0.99))}]
-        r = run_case(copy.deepcopy(c))
+        r = runner_guarded(PROPERTY, run_case, copy.deepcopy(c))
         r['case'] = c
         r['first_of_seed'] = False
         results.append(r)
